@@ -319,6 +319,8 @@ class Contract:
         fi = self.fi
         if fi is None:
             raise Unsupported("contract target %s not found in /repo" % self.target)
+        if getattr(fi, "foreign_decorators", None):
+            raise Unsupported("%s is decorated with %s" % (self.target, ", ".join(fi.foreign_decorators)))
         obls = []
         st = State()
         st.obls = obls
